@@ -6,7 +6,10 @@
 -/
 import Props.C13
 import Props.Family
+import Gen.Guards.FillersOK
+import Gen.Guards.LabelsOK
 import Gen.Guards.TextLoop
+import Gen.Guards.WrapOK
 namespace PM.Family.C13
 open PM
 open PM.C13
@@ -78,5 +81,21 @@ theorem removeMark_total_effect (S : Schema) (hS : S ∈ familySchemas) (tr : Tr
     (¬ (f ≤ i ∧ i < t ∧ isInlineTok S (tokAt old i) = true) → tokAt new i = tokAt old i)) :=
   PM.C13.removeMark_total_effect S (textLoop_of_B _ (family_textLoop _ hS)) tr f t sel hdoc hv hn hc hft ht haf
     hat
+
+/-- `PM.C13.fillOutcome_step_wf` with its schema guards discharged for the bundled schema family -/
+theorem fillOutcome_step_wf (S : Schema) (hS : S ∈ familySchemas) (hdet : PM.C11.detB S = true) (pty : TypeId)
+    (q : Nat) (d1 : Node) (cur : Nat) (fs : List Step) (hv : C01.Valid S d1) (hattrs : S.nodeAttrsOK d1 = true)
+    (hrun : unplacedWfRun S d1 cur cur ⟨retypeFill S pty q, 0, 0⟩ = true) (ho : FillOutcome S pty q d1 cur fs)
+    (st : Step) (hst : st ∈ fs) :
+    StepWF st = true ∧
+    (∀ F T G1 G2 sl' ins b, st = .replaceAround F T G1 G2 sl' ins b → aroundShape F T G1 G2 sl' ins = true) :=
+  PM.C13.fillOutcome_step_wf S hdet (family_fillersOK _ hS) (family_wrapOK _ hS) (family_labelsOK _ hS) pty q d1
+    cur fs hv hattrs hrun ho st hst
+
+/-- `PM.C13.fillOutcome_step_notext` with its schema guards discharged for the bundled schema family -/
+theorem fillOutcome_step_notext (S : Schema) (hS : S ∈ familySchemas) (pty : TypeId) (q : Nat) (d1 : Node)
+    (cur : Nat) (fs : List Step) (ho : FillOutcome S pty q d1 cur fs) (st : Step) (hst : st ∈ fs) :
+    ∃ sl', st.sliceOf = some sl' ∧ textUnits sl'.toks = [] :=
+  PM.C13.fillOutcome_step_notext S pty q d1 cur fs ho st hst
 
 end PM.Family.C13
